@@ -68,6 +68,21 @@ class Func:
         n = self.nblocks
         self.succ = [[] for _ in range(n)]
         self.pred = [[] for _ in range(n)]
+        # locals assigned exactly once, from a literal: `if false {..}` lowers to _x = const false; switch(move _x)
+        nassign = {}
+        lit = {}
+        for b in self.blocks:
+            for st in b["stmts"]:
+                if st["k"] == "assign" and not st["place"]["p"]:
+                    l = st["place"]["l"]
+                    nassign[l] = nassign.get(l, 0) + 1
+                    rv = st["rv"]
+                    if rv["k"] == "use" and "const" in rv["op"] and "bits" in rv["op"]["const"] and "path" not in rv["op"]["const"]:
+                        lit[l] = rv["op"]["const"]["bits"]
+            t = b["term"]
+            if t["k"] == "call" and not t["dest"]["p"]:
+                nassign[t["dest"]["l"]] = nassign.get(t["dest"]["l"], 0) + 1
+        const_local = {l: v for l, v in lit.items() if nassign.get(l) == 1}
         for i, b in enumerate(self.blocks):
             if b.get("cleanup"):
                 continue
@@ -80,7 +95,16 @@ class Func:
                 if "target" in t:
                     ss = [t["target"]]
             elif k == "switch":
-                ss = [x[1] for x in t["targets"]] + [t["otherwise"]]
+                c = t["discr"].get("const")
+                dp = t["discr"].get("move") or t["discr"].get("copy")
+                if c is None and dp is not None and not dp["p"] and dp["l"] in const_local:
+                    c = {"bits": const_local[dp["l"]]}
+                if c is not None and "bits" in c:
+                    # branch on a literal (e.g. tracing's `if false { loop {} }`): only the taken edge exists
+                    hit = [x[1] for x in t["targets"] if x[0] == c["bits"]]
+                    ss = hit[:1] if hit else [t["otherwise"]]
+                else:
+                    ss = [x[1] for x in t["targets"]] + [t["otherwise"]]
             seen = []
             for s in ss:
                 if s not in seen:
